@@ -48,6 +48,8 @@ class Src:
                 out.append((name, base, None) if d[1] else (name, "Optional[%s]" % base, "None"))
             elif k == "list":
                 out.append((name, "List[%s]" % self.dataclass(d[1]), "LIST"))
+            elif k == "odata":
+                out.append((name, "Optional[%s]" % self.dataclass(d[1]), "None"))
             else:
                 raise ValueError("no %s inside a class" % k)
         return out
@@ -258,6 +260,14 @@ def one(case):
         return {"r": "other", "what": "BUILD %s: %s" % (type(e).__name__, str(e)[:200])}
     cfg = case["cfg"]
     ch = case["channel"]
+    # parse history: earlier parses on the same parser object (their outcome does not matter)
+    for wc in case.get("warm") or []:
+        try:
+            with warnings.catch_warnings():
+                warnings.simplefilter("ignore")
+                p.parse_object(copy.deepcopy(wc))
+        except BaseException:
+            pass
     if case.get("label") == "valid":
         # "there is no lenient mode that accepts leftovers": parse_known_args refuses callers outside the package
         try:
